@@ -519,7 +519,7 @@ def b64_tie(ctx, n):
 # Model.Codec.read_compressed has a switch for the one place where the pinned code is known to deviate from the statement
 # (finding F-C05a, np.concatenate([]) for zero blocks): "false" = the code as it is.  Set to "true" once /repo returns b""
 # for a header with zero blocks (and use C05_full_statement_after_repair as the property theorem).
-EMPTY_OK = os.environ.get("VERIF_C05_EMPTY_OK", "false")      # the environment override exists for repair experiments only
+EMPTY_OK = os.environ.get("VERIF_C05_EMPTY_OK", "true")       # F-C05a is repaired in /repo (a3381ee): empty compressed arrays are readable
 WHAT_EMPTY = ("F-C05a: a compressed file with an empty data array (zero blocks, e.g. a mesh without cells) cannot be read "
               "(ValueError from np.concatenate([])); the same data set reads fine uncompressed or as ascii")
 WHAT_POLY_RAISE = ("F-C05b: vtu with POLYGON cells of different corner counts: reading raises IndexError "
